@@ -670,12 +670,12 @@ type aSetOp struct {
 }
 
 type aStage struct {
-	Ops     []aSetOp `json:"ops,omitempty"`     // applied before the stage's passes
-	Targets []aOID   `json:"targets"`           // the ObjectSets reconciled in this stage
-	Policy  string   `json:"policy"`            // rr | random
-	Seed    int64    `json:"seed,omitempty"`
-	Max     int      `json:"max,omitempty"`     // bound on controller passes of the stage
-	Explicit []struct {                         // policy "explicit": the passes to run, in order
+	Ops      []aSetOp   `json:"ops,omitempty"` // applied before the stage's passes
+	Targets  []aOID     `json:"targets"`       // the ObjectSets reconciled in this stage
+	Policy   string     `json:"policy"`        // rr | random
+	Seed     int64      `json:"seed,omitempty"`
+	Max      int        `json:"max,omitempty"` // bound on controller passes of the stage
+	Explicit []struct { // policy "explicit": the passes to run, in order
 		Actor  string `json:"actor"`
 		Target aOID   `json:"target"`
 	} `json:"explicit,omitempty"`
